@@ -332,6 +332,28 @@ AddedShapeOK(before, after, newIds) ==
   /\ ValuesCoherent(after)
   /\ AllIds(after) = AllIds(before)
 
+(* criteria whose range, scaled as configured, is the reported range of the concealed criterion: the candidates *)
+(* for the reference criterion of bias step k                                                                   *)
+ConcealRefs(o, k, b) ==
+  LET e == BiasEvents(o)[k]
+      before == BeforeOf(o, k)
+      rep == e.report.props
+      u == o.case.unit
+      sc == PGet(BProps(b), "newCriterionScaling", u)
+  IN IF ~e.fired \/ ~Has(rep, "addedCriteria") \/ Len(rep.addedCriteria) # 1 THEN {}
+     ELSE LET ac == rep.addedCriteria[1] IN
+          {c \in StCritIds(before) :
+              LET r == Scaled2(RangeOf(before, c), sc, u) IN
+              Near(2 * ac.valuesRange.min, r.lo, 2 * Slack) /\ Near(2 * ac.valuesRange.max, r.hi, 2 * Slack)}
+
+(* frequencies of the seeded strategies over n runs that differ in newCriterionRandomSeed only; three criteria  *)
+(* c1 < c2 < c3 with importance 1 : 4 : 16 and pairwise different ranges.  randomUniform: every criterion about *)
+(* n/3 times (n/8 is more than five standard deviations); randomWeighted: weight = min/importance, hence       *)
+(* 16 : 4 : 1 - the weakest criterion most often                                                                *)
+C18FreqOK(strategy, n1, n2, n3, n) ==
+  IF strategy = "randomUniform" THEN \A x \in {n1, n2, n3} : 8 * x >= 8 * (n \div 3) - n /\ 8 * x <= 8 * (n \div 3) + n + 8
+  ELSE n1 + n2 + n3 = n /\ n1 > n2 /\ n2 > n3 /\ 2 * n1 > n
+
 C18Conceal(o, k, b) ==
   LET e == BiasEvents(o)[k]
       p == BProps(b)
